@@ -47,7 +47,7 @@ def seeded_table():
                 m.update(json.loads((d / name).read_text()))
         demo = f"demo rc {m.get('demo_on_original', '?')} / {m.get('demo_on_patched', '?')} (original / patched)"
         m['notes'] = (m.get('notes', '') + ' ' + demo).strip()
-        rows.append(f"| {m['property']} | {m.get('file', '')} | {m.get('trigger', '')[:160]} | {m.get('caught_by', '')} | {m.get('notes', '')[:220]} |")
+        rows.append(f"| {m['property']} | {m.get('file', '')} | {m.get('trigger', '')[:300]} | {m.get('caught_by', '')} | {m.get('notes', '')[:420]} |")
     return '\n'.join(rows)
 
 
